@@ -131,21 +131,30 @@ def release (now : Nat) (L : Layer) : Layer × List Out :=
 def send (L : Layer) (now : Nat) (d : Dgram) (T : Nat) : Layer × List Out :=
   if d.type = .con then
     if L.conActive ≥ nstart then
-      ({ L with delayq := L.delayq ++ [{ d := d, timeout := T, cnt := 0, due := 0 }] }, [])
+      -- coap_session_delay_pdu: a message id that is already waiting on the delay queue is refused (PDU dropped)
+      if L.delayq.any (fun q => q.d.mid == d.mid) then (L, [])
+      else ({ L with delayq := L.delayq ++ [{ d := d, timeout := T, cnt := 0, due := 0 }] }, [])
     else
       (waitAck { L with conActive := L.conActive + 1 } now { d := d, timeout := T, cnt := 0, due := 0 }, [Out.tx d])
   else (L, [Out.tx d])
 
-/-- coap_cancel_all_messages: every queued node with this token goes; a CON releases its NSTART slot -/
-def cancelByToken (now : Nat) (tok : Bytes) : List Node → Layer → Layer × List Out
-  | [], L => (L, [])
-  | q :: rest, L =>
-    if q.d.token = tok then
+/-- coap_cancel_all_messages: every queued node with this token goes; a CON releases its NSTART slot (which may
+    transmit a held message — if that one carries the same token the walk reaches it too: the C loop continues on
+    the live queue; modelled as "remove the first match, repeat", exact while at most one node per session is queued,
+    which NSTART = 1 guarantees for Confirmables) -/
+def cancelByToken (now : Nat) (tok : Bytes) : Nat → Layer → Layer × List Out
+  | 0, L => (L, [])
+  | fuel + 1, L =>
+    match L.sendq.find? (fun n => n.d.token == tok) with
+    | none => (L, [])
+    | some q =>
       let L1 := { L with sendq := L.sendq.filter (fun n => n != q) }
       let (L2, o1) := if q.d.type = .con then release now L1 else (L1, [])
-      let (L3, o2) := cancelByToken now tok rest L2
+      let (L3, o2) := cancelByToken now tok fuel L2
       (L3, o1 ++ o2)
-    else cancelByToken now tok rest L
+
+def cancelAll (now : Nat) (tok : Bytes) (L : Layer) : Layer × List Out :=
+  cancelByToken now tok (L.sendq.length + L.delayq.length + 1) L
 
 /-- coap_retransmit for a node that has just been popped from the send queue -/
 def retransmit (L : Layer) (now : Nat) (n : Node) : Layer × List Out :=
@@ -203,7 +212,7 @@ namespace Client
 /-- handle_response; `ok` is what the application's response handler returns if it gets called -/
 def handleResponse (c : Client) (now : Nat) (d : Dgram) (ok : Bool) : Client × List Out :=
   -- if (rcvd->type != COAP_MESSAGE_ACK) coap_cancel_all_messages(context, session, &rcvd->actual_token);
-  let (L1, o1) := if d.type ≠ .ack then Layer.cancelByToken now d.token c.L.sendq c.L else (c.L, [])
+  let (L1, o1) := if d.type ≠ .ack then Layer.cancelAll now d.token c.L else (c.L, [])
   let c1 := { c with L := L1 }
   -- duplicate filter
   if d.type = .con ∧ c1.lastCon = some d.mid then
@@ -236,19 +245,18 @@ def rx (c : Client) (now : Nat) (d : Dgram) (ok : Bool) : Client × List Out :=
       (c2, o1 ++ o2)
     else (c, [Out.unmodelled])
   | .rst =>
-    let (L1, o1) := Layer.release now c.L
-    let (sent, q) := Layer.removeByMid d.mid L1.sendq
-    let c1 := { c with L := { L1 with sendq := q } }
-    (c1, o1 ++ [Out.callNack .rst d.mid])
+    -- look the message up first; only a RST that matches a queued message releases the NSTART slot
+    let (sent, q) := Layer.removeByMid d.mid c.L.sendq
+    let L0 := { c.L with sendq := q }
+    let (L1, o1) := if sent.isSome then Layer.release now L0 else (L0, [])
+    -- coap_cancel() only acts on a context with resources (not on this client); NACK with COAP_NACK_RST
+    let nack := match sent with
+      | some n => if n.d.type = .con then [Out.callNack .rst n.d.mid] else []
+      | none => [Out.callNack .rst d.mid]
+    ({ c with L := L1 }, o1 ++ nack)
   | .non =>
-    if isResponse d.code then
-      let (sent, q) := Layer.removeByMid d.mid c.L.sendq
-      let L0 := { c.L with sendq := q }
-      let (L1, o1) := match sent with
-        | some n => if n.d.type = .con then Layer.release now L0 else (L0, [])
-        | none => (L0, [])
-      let (c2, o2) := handleResponse { c with L := L1 } now d ok
-      (c2, o1 ++ o2)
+    -- the message id of a NON is the peer's: it is not looked up in the send queue
+    if isResponse d.code then handleResponse c now d ok
     else (c, [Out.unmodelled])
   | .con =>
     if isResponse d.code then handleResponse c now d ok
@@ -372,9 +380,15 @@ def rx (s : Server) (now : Nat) (d : Dgram) : Server × List Out :=
     let (L1, o1) := if sent.isSome then Layer.release now L0 else (L0, [])
     ({ s with L := L1 }, o1)
   | .rst =>
-    let (L1, o1) := Layer.release now s.L
-    let (_, q) := Layer.removeByMid d.mid L1.sendq
-    ({ s with L := { L1 with sendq := q } }, o1 ++ [Out.callNack .rst d.mid])
+    let (sent, q) := Layer.removeByMid d.mid s.L.sendq
+    let L0 := { s.L with sendq := q }
+    let (L1, o1) := if sent.isSome then Layer.release now L0 else (L0, [])
+    match sent with
+    | some n =>
+      -- coap_cancel(): the context has a resource, so every queued message with the same token is cancelled
+      let (L2, o2) := Layer.cancelAll now n.d.token L1
+      ({ s with L := L2 }, o1 ++ o2 ++ (if n.d.type = .con then [Out.callNack .rst n.d.mid] else []))
+    | none => ({ s with L := L1 }, o1 ++ [Out.callNack .rst d.mid])
   | .con | .non =>
     if isRequest d.code then s.handleRequest now d else (s, [Out.unmodelled])
 
